@@ -50,6 +50,8 @@ BLOCKING_CALLS = {
     "std-net": ("let c = std::net::TcpStream::connect(\"a:1\");", "net-in-async", "detect_net_in_async"),
     "net-short": ("let c = TcpStream::connect(\"a:1\");", "net-in-async", "detect_net_in_async"),
     "net-mid": ("let c = net::TcpStream::connect(\"a:1\");", "net-in-async", "detect_net_in_async"),
+    "std-fs-leading-colons": ("let s = ::std::fs::read_to_string(\"a.txt\");", "fs-in-async", "detect_fs_in_async"),
+    "std-fs-turbofish": ("let s = std::fs::read::<&str>(\"a.txt\");", "fs-in-async", "detect_fs_in_async"),
     "tokio-fs": ("let s = tokio::fs::read_to_string(\"a.txt\").await;", None, None),
     "tokio-sleep": ("tokio::time::sleep(d).await;", None, None),
     "std-io-not-fs": ("let s = std::io::read_to_string(&mut src);", None, None),
